@@ -49,6 +49,18 @@ CHECKS = {
    technique="bounded-exhaustive input enumeration of wire messages and all their strict prefixes, differential against an independent compact-encoding reference",
    text="Every value of Node, RequestBlock/Seek/Upgrade and DataBlock/Hash/Seek/Upgrade with integers at all varint boundaries (0,252,253,65535,65536,2^32-1,2^32,2^64-1), byte strings of every length 0..300 and node lists of every length 0..8: encoded_size equals the bytes written and the reference length, the bytes equal the reference encoding, decoding returns the original value with nothing left over, and every strict prefix decodes to an error (never a panic).",
    note="Oracle: harness/src/cenc.rs, written from the compact-encoding rules and lib/messages.js field order. Dependencies are built without overflow checks (as in a release build): in a debug build flat-tree's parent() overflows for node indices >= 2^63-1, which is outside what this check claims."),
+ "C12": dict(cat="fault_enumeration", ref="DESIGN.md §2 C12",
+   technique="bounded-exhaustive exploration of histories with make_read_only plus exhaustive crash/torn-write enumeration inside every make_read_only call, full-file scans for the secret seed",
+   text="For every history over append/batch/clear/reopen/make_read_only alphabets up to the depth: call results, info/has/get vs the model, open(true) on the image (stored public key and writability, second make_read_only reports false, append is NotWritable), a scan of all four files for the 32-byte secret seed in every state after make_read_only, and no storage operation at all for refused appends; every crash point and torn cut inside every make_read_only call must recover a writable-or-read-only core with all data and stay usable; replicas: make_read_only false, appends refused, nothing written; key_pair + open is rejected by the builder.",
+   note="The secret is the 32-byte Ed25519 seed (the header stores seed||public). Trusted: list model, journaling backend."),
+ "C13": dict(cat="exploration", ref="DESIGN.md §2 C13",
+   technique="bounded-exhaustive exploration of op sequences on the real crate with a subscriber attached before every call and all receivers drained after every call",
+   text="Every sequence of appends, empty batches, clears, gets of held / missing / out-of-range indices and reopens on a writer (depth 5 quick / 6 thorough), and of honest syncs, refused (altered) proofs, gets and reopens on replicas, with a new subscriber attached before every call: each subscriber attached before a call must receive exactly the events the statement prescribes for it (upgrade + have range for appends, upgrade iff upgrade / have iff block for accepted proofs, one get event for a missing read, nothing for refused/failed/no-op calls; clears may only announce drops inside the range), all subscribers identically.",
+   note="Receivers are drained after every call, so fewer than 32 events are ever undrained. create_proof is outside the alphabet; events on the serving core during a sync are ignored."),
+ "C14": dict(cat="exploration", ref="DESIGN.md §2 C14",
+   technique="bounded-exhaustive differential execution of every history under 3 storage backends x 3 node-cache settings on the real crate, comparing observation transcripts and file bytes",
+   text="Every history of the listed families (small and 3/5000/20000-byte blocks, clears, reopen, make_read_only, replica request orders) runs under JournalStore, RandomAccessMemory and RandomAccessDisk (tmpfs), each with the node cache off, default and limited to ~2 nodes: all call results and info/has/get after every call must be identical in all runs and the four files byte-identical (read back in full). Deeper families run on the instrumented backend with the three cache settings only (cache coherence across multi-round reads). The thorough tier repeats everything in a second build without the sparse feature.",
+   note="This is also the validation of the journaling backend used by every other check. Disk files live on /dev/shm (fallback /verif/run)."),
 }
 
 PENDING = {
